@@ -3,6 +3,7 @@ import CqlVerif.Lemmas.ParserSound
 import CqlVerif.Model.Lexer
 import CqlVerif.Lemmas.Grammar
 import CqlVerif.Lemmas.GrammarStmt
+import CqlVerif.Lemmas.GrammarUpdate
 /-!
 # C06 — The idempotency classifier is sound, case/whitespace-stable and total
 
@@ -145,6 +146,33 @@ example :
     (classify (lexOf (ins [102] (.col { text := [120] } .nil)).render) 60).idem = true ∧
     (ins [117, 117, 105, 100] .nil).vals.nonIdem = true ∧
     (classify (lexOf (ins [117, 117, 105, 100] .nil).render) 60).idem = false := by
+  decide +kernel
+
+open CqlVerif.Ast in
+/-- **update_grammar_sound** — for every `UPDATE [ks.]table SET c₁ = term₁, …, cₙ = termₙ <tail>` (any names, SET in
+any letter case, any number of assignments, any terms of the grammar, and any tail - WHERE …, IF …, `;`, end of
+input, garbage - that does not begin with `+`, which would make the last assignment a list prepend), scanned from
+the start of the input, with any fuel: if the verdict is "idempotent" then no assigned value contains a call of
+`now()` / `uuid()` at any depth.  The look-ahead for `column = column ± term` and the one for `term + column`
+(mark, two tokens, rewind) cannot make such a call disappear. -/
+theorem update_grammar_sound (u : Update) (hkw : u.setKw.equal "set" = true) (b0 : Tok) (r0 : List Tok)
+    (htail : u.tail = b0 :: r0) (hb0 : b0.kind ≠ tkAdd) (L : Lexer) (fuel : Nat)
+    (hA : At L 0 u.render) (hi : (classify L fuel).idem = true) : u.ops.nonIdem = false :=
+  update_sound u hkw b0 r0 htail hb0 L fuel hA hi
+
+open CqlVerif.Ast in
+/-- non-vacuity: `UPDATE ks.t SeT a = {1, f(x)}, b = :v WHERE k = 1 <end>` meets the hypotheses (verdict "idempotent");
+with `now()` for `f(x)` the verdict is "not idempotent" -/
+example :
+    let upd (fn : List Nat) (args : Args) : Update :=
+      { ks := some { text := [107, 115] }, table := { text := [116] }, setKw := { text := [83, 101, 84] },
+        ops := .cons { text := [97] } (.set (.cons .int (.cons (.call none { text := fn } args) .nil)))
+                (.cons { text := [98] } (.bindNamed { text := [118] }) .nil),
+        tail := [k tkWhere, idt { text := [107] }, k tkEqual, k tkInteger, k tkEOF] }
+    (upd [102] (.col { text := [120] } .nil)).setKw.equal "set" = true ∧
+    (classify (lexOf (upd [102] (.col { text := [120] } .nil)).render) 80).idem = true ∧
+    (upd [110, 111, 119] .nil).ops.nonIdem = true ∧
+    (classify (lexOf (upd [110, 111, 119] .nil).render) 80).idem = false := by
   decide +kernel
 
 end CqlVerif.C06
